@@ -91,6 +91,8 @@ pub struct BrokerCfg {
     pub seg_mode: SegMode,
     pub seg_gap_max_ns: u64,
     /// deliveries generated per consumer
+    /// number of deliveries for consumers of particular queues (overrides deliveries_min/max)
+    pub deliveries_for_queue: Vec<(String, u32)>,
     pub deliveries_min: u32,
     pub deliveries_max: u32,
     pub body_max: usize,
@@ -170,6 +172,7 @@ impl Default for BrokerCfg {
             s2c_lat_max_ns: 10_000,
             seg_mode: SegMode::Whole,
             seg_gap_max_ns: 0,
+            deliveries_for_queue: Vec::new(),
             deliveries_min: 0,
             deliveries_max: 0,
             body_max: 64,
@@ -886,6 +889,11 @@ impl Broker {
     }
 
     /// push everything queued into the byte stream right now (no interleaving games)
+    /// frames not yet handed to the network
+    pub fn pending_output(&self) -> usize {
+        self.muxq.values().map(|q| q.len()).sum()
+    }
+
     fn flush_all(&mut self) {
         let mut guard = 0;
         while self.muxq.values().any(|q| !q.is_empty()) && guard < 100000 {
@@ -1502,8 +1510,9 @@ impl Broker {
                         return;
                     }
                     // deliveries follow the ConsumeOk on the same channel queue
-                    let n = self.cfg.deliveries_min
-                        + if self.cfg.deliveries_max > self.cfg.deliveries_min {
+                    let n_override = self.cfg.deliveries_for_queue.iter().find(|(q, _)| *q == c.queue).map(|x| x.1);
+                    let n = if let Some(k) = n_override { k } else { self.cfg.deliveries_min }
+                        + if n_override.is_none() && self.cfg.deliveries_max > self.cfg.deliveries_min {
                             simrt::choose("n_deliveries", self.cfg.deliveries_max - self.cfg.deliveries_min + 1)
                         } else {
                             0
